@@ -116,6 +116,9 @@ class C03(Prop):
                     it[3] = g.choice(["", "d", "xy"])
                     if isinstance(it[2], str):
                         it[2] = g.choice(["", "v", "ab"])
+        if g.random() < 0.12:
+            # a second NULL item (duplicate of one of the four ~Well mnemonics with their own 1.2 layout)
+            secs["well"].insert(g.randint(0, len(secs["well"])), ["NULL", "", g.choice([-999.2500001234, -9999, "none"]), g.choice(["", "x", "second null"])])
         other = g.choice(OTHERS)
         codec = g.choice(["utf-8", "utf-8", "utf-16", "cp1252", "latin-1", "utf-8-sig"])
         cfg = draw_read_channel(g, ascii_only=False, encodable=[codec])
@@ -136,6 +139,7 @@ class C03(Prop):
         # ~Well: keep STRT/STOP/STEP/NULL, drop the other defaults, add ours
         for m in [it.mnemonic for it in las.well][4:]:
             del las.well[m]
+        four = list(las.well)[:4]         # STRT, STOP, STEP, NULL
         for m, u, v, d in secs["version"]:
             las.version.append(lasio.HeaderItem(m, u, v, d))
         for m, u, v, d in secs["well"]:
@@ -146,10 +150,10 @@ class C03(Prop):
         sp = sc.get("special")
         sdescr = {"STRT": "START DEPTH", "STOP": "STOP DEPTH", "STEP": "STEP", "NULL": "NULL VALUE"}
         if sp:
-            las.well["NULL"].value = sp["null"]
-            for m in sdescr:
-                las.well[m].descr = sp["descr"]
-                sdescr[m] = sp["descr"]
+            four[3].value = sp["null"]
+            for it in four:
+                it.descr = sp["descr"]
+                sdescr[it.original_mnemonic] = sp["descr"]
         las.append_curve("DEPT", np.arange(rows) * 0.5 + (sp["index0"] if sp else 100), unit="M", descr="index")
         for j, (m, u, v, d) in enumerate(secs["curves"]):
             las.append_curve(m, np.arange(rows) + 10.0 * (j + 1), unit=u, value=v, descr=d)
